@@ -139,8 +139,7 @@ PROPS = {
                 "0..4 GPS, 0..6 ACCL, MAGN readings; one case in five has broken tables; the harness checks that mp4ff parses back the tables it wrote; non-trivial = >= 2 samples",
         "trusted_base": KERNEL + TIE + ["Eyevinn/mp4ff box parsing: DecodeFile returns the tables that were written (echo-checked per case)",
                                         "io.Seek + io.LimitReader modelled as drop/take on the file bytes"],
-        "assumptions": ["per-sample extents (chunk offset + preceding sizes) and the stts-run bookkeeping are validated by correspondence; theorems cover order/once, interval tiling, media time and spreading"],
-        "partial_notes": ["extent formula (offset = chunk offset + sizes of preceding samples in the chunk) and equality of each interval with the stts delta: correspondence only"],
+        "assumptions": ["the per-payload GPMF parse (readAll) enters telemetry_is_concatenation as a hypothesis per sample; its own theorems are C06/C07/C16"],
     },
     "C09": {
         "props": "TrackVerif.GPMF.PropsC09",
